@@ -848,6 +848,9 @@ def call_arr_method(I, x, name, args, kwargs, node, fr):
     if name == "transpose":
         if not args:
             return Arr(tuple(reversed(x.axes)), x.elem, x.space)
+        if len(args) > 1 and all(isinstance(t, Num) for t in args):
+            # x.transpose(0, 2, 1): the axes given as separate arguments
+            return call_np(I, "transpose", [x, Tup(list(args))], kwargs, node, fr)
         return call_np(I, "transpose", [x] + list(args), kwargs, node, fr)
     if name in ("flatten", "ravel"):
         return Arr([_intify(product_ax(x.axes))], x.elem, x.space)
@@ -882,6 +885,19 @@ def call_arr_method(I, x, name, args, kwargs, node, fr):
 # ------------------------------------------------------------------------------------------ python containers
 def call_pymethod(I, base, name, args, kwargs, node, fr):
     if isinstance(base, Lst):
+        if name == "append" and args and getattr(I, "loop_lengths", None):
+            # inside a loop the abstract interpreter runs the body twice: the list grows once per ITERATION, not twice
+            tok, ln = I.loop_lengths[-1]
+            if getattr(base, "_loop_tok", None) is tok:
+                base.elem = args[0] if base.elem is None or is_top(base.elem) else join(base.elem, args[0])
+            else:
+                fresh = base.items is not None and len(base.items) == 0 and len(I.loop_lengths) == 1
+                cur = base.element() if (base.items or (base.items is None and base.elem is not None)) else None
+                base._loop_tok = tok
+                base.items = None
+                base.elem = args[0] if cur is None or is_top(cur) else join(cur, args[0])
+                base.length = ln if fresh else UNK
+            return NoneV()
         if name == "append" and args:
             if base.items is not None:
                 base.items.append(args[0])
